@@ -28,6 +28,7 @@ package main
 import (
 	"fmt"
 	"os"
+	"runtime"
 	"sort"
 	"strconv"
 	"strings"
@@ -436,7 +437,7 @@ func (s *sut) apply(f []string) (res string, resolved []string, err error) {
 		s.lastClear = L
 		return "ok", f, nil
 	case f[0] == "flush" && len(f) == 1:
-		model.VerifC06Flush(s.cache)
+		realFlush(s.cache)
 		return "ok", f, nil
 	case f[0] == "maxsize" && len(f) == 2:
 		n, ok := parseInt(f[1])
@@ -447,6 +448,38 @@ func (s *sut) apply(f []string) (res string, resolved []string, err error) {
 		return "ok", f, nil
 	}
 	return "bad-op", f, nil
+}
+
+// realFlush lets the REAL XdsCacheImpl.Run goroutine (ticker -> Flush of the four typed caches) do the index
+// cleanup: the clear interval is set to 40us, Run is started, and it is stopped again once every evict queue
+// has been observed empty (through the read-only hook). A tick on empty queues changes nothing, so the state
+// after the call is the state after exactly one Flush of each cache.
+func realFlush(c model.XdsCache) {
+	pending := func() bool {
+		for _, t := range typeOrder {
+			if len(model.VerifC06Snapshot(c, t).EvictQueue) > 0 {
+				return true
+			}
+		}
+		return false
+	}
+	if !pending() {
+		return
+	}
+	features.XDSCacheIndexClearInterval = 40 * time.Microsecond
+	stop := make(chan struct{})
+	before := runtime.NumGoroutine()
+	c.Run(stop)
+	deadline := time.Now().Add(5 * time.Second)
+	for pending() && time.Now().Before(deadline) {
+		runtime.Gosched()
+	}
+	close(stop)
+	// wait until the Run goroutine is gone (the harness itself starts no other goroutine here), so that no late
+	// tick can flush what a following operation queues
+	for t0 := time.Now(); runtime.NumGoroutine() > before && time.Since(t0) < 5*time.Second; {
+		runtime.Gosched()
+	}
 }
 
 func parseCase(f []string) (maxsize int, cdsOn, rdsOn bool, ok bool) {
@@ -512,7 +545,13 @@ func execCache(opsPath, outPath string) {
 	defer out.Close()
 	rout := wire.Create(opsPath + ".resolved")
 	defer rout.Close()
-	retries := 0
+	retries, unresolved := 0, 0
+	defer func() {
+		st := wire.Create(outPath + ".stats")
+		st.Line("timing_unresolved", strconv.Itoa(unresolved))
+		st.Line("timing_retries", strconv.Itoa(retries))
+		st.Close()
+	}()
 	for _, c := range splitCases(all) {
 		unit := uint64(20000)
 		var outs []string
@@ -530,8 +569,16 @@ func execCache(opsPath, outPath string) {
 			unit *= 2
 		}
 		if err != nil {
+			// a loaded machine: the logical/real time order could not be established for this case. It is not
+			// compared (both sides answer `timing-unresolved`), but it is counted and reported by the check.
 			fmt.Fprintln(os.Stderr, "c06: could not establish the logical/real time order for a case:", err)
-			os.Exit(3)
+			unresolved++
+			for range c {
+				out.Line("timing-unresolved")
+				rout.Line("unresolved")
+			}
+			out.Flush()
+			continue
 		}
 		for i := range outs {
 			out.Line(outs[i])
